@@ -18,8 +18,14 @@ impl StrengthReduction {
         }
     }
 
+    /// Whether `expr` can be evaluated twice instead of once without an observable difference
+    /// and is known to be a number.
+    ///
+    /// NOTE: Reading an identifier can run a getter, converting its value can run `valueOf`, and
+    ///       `x ** 2` is a `TypeError` for a `BigInt` `x` where `x * x` is not.
     fn is_side_effect_free(expr: &Expression) -> bool {
-        matches!(expr, Expression::Literal(_) | Expression::Identifier(_))
+        use boa_ast::expression::literal::LiteralKind;
+        matches!(expr, Expression::Literal(lit) if matches!(lit.kind(), LiteralKind::Int(_) | LiteralKind::Num(_)))
     }
 
     fn as_literal_int(expr: &Expression) -> Option<i32> {
